@@ -71,6 +71,12 @@ func main() {
 		rep.OpenOut("/dev/stdout")
 		rep.FlushDelta()
 		fmt.Fprintf(os.Stderr, "unit %d of %d took %v\n", idx, p.NumUnits(os.Args[3], envSeed()), time.Since(t0))
+	case "probe":
+		// helper process of C03: vcheck probe <recipe-json> <fwd|rev>
+		if err := props.Probe(os.Args[2], os.Args[3], os.Stdout); err != nil {
+			fmt.Fprintln(os.Stderr, err)
+			os.Exit(2)
+		}
 	case "dbg":
 		// debugging aid: vcheck dbg <witness.json> <query kind> [byte]  - run a query on the witness' recipe+files and dump the result
 		os.Exit(dbg(os.Args[2:]))
@@ -152,6 +158,15 @@ func worker(args []string) int {
 	journal := fs.String("journal", "", "")
 	counter := fs.String("counter", "", "")
 	fs.Parse(args)
+	// a worker does not outlive its driver (a killed driver must not leave 16 busy processes behind)
+	go func(parent int) {
+		for {
+			time.Sleep(2 * time.Second)
+			if os.Getppid() != parent {
+				os.Exit(3)
+			}
+		}
+	}(os.Getppid())
 	p := props.Get(*id)
 	if p == nil {
 		return 2
